@@ -31,7 +31,11 @@ RULE = ("Hypothesis draws definition closures for the layout profile: 1-2 files,
         "constant-expression lengths, alias chains, messages in messages, explicit user padding) with validation on. The sub-domain of ALL "
         "sequences of <= 4 fields over {1,2,4,8}-byte scalars and arrays of length 1 and 3 (22620 structs, each also as element of an array "
         "inside a wrapper message after a single byte) is enumerated completely in both tiers, auto_pad on and off, and so is a table of "
-        "definitions whose declared bytes total 65520..65551 for strictest alignment 1/2/4/8. The configuration itself is chosen in every "
+        "definitions whose declared bytes total 65520..65551 for strictest alignment 1/2/4/8 (512 cases), each compiled without the core definitions as it is "
+        "and with 12 declarations of user constants NAMED LIKE THE CORE'S LIMIT CONSTANTS (MAX_MESSAGE_SIZE alone: 1048576, 0x7FFFFFFF, 65536, 65534, 1000, 0, as an "
+        "expression, a float, a string constant; all 15 integer constants of core_defs.yaml x16, /16 and unchanged), in the root file or in a file imported first, "
+        "and every fourth case with the core definitions imported: the limit is the number 65535 whatever constants exist. Generator class limit-constants: drawn "
+        "layout closures (80% with sizes next to 65535) that declare 1-4 such constants with drawn values. The configuration itself is chosen in every "
         "documented way: Parser(...) arguments (all of the above), and a deterministic matrix of 5 layouts (interior padding, trailing "
         "padding, none, arrays, user fields named like padding fields) x auto_pad on/off through compile(...) keyword arguments, command line flags (--no_auto_pad, "
         "--no_core_import) and a compiler_options section in the root file (AUTO_PAD, VALIDATE_ALIGNMENT, IMPORT_COREDEFS; honoured by the "
@@ -40,6 +44,9 @@ RULE = ("Hypothesis draws definition closures for the layout profile: 1-2 files,
         "The matrix also holds the CONFLICTING combinations: an explicit compile() keyword argument (auto_pad / validate_alignment, either value) or an "
         "explicit command line switch (--no_auto_pad, --no_val_align) against the opposite AUTO_PAD / VALIDATE_ALIGNMENT entry in the root file's "
         "compiler_options section - the explicit choice must take effect (the file only provides the command line's defaults). "
+        "The matrix also has two layouts with ONE trailing padding byte ({int32; char[3]}, {int16; uint8}) and the size limit through every way of compiling without "
+        "the core definitions (import_coredefs=False, --no_core_import, IMPORT_COREDEFS: false) with such user constants: 70008 and 65536 bytes must fail with "
+        "InvalidMessageSize, 65535 bytes must compile. "
         "Generator class padding-name: user fields called padding_<n>_ (n = 0..3, the names of the compiler's own padding fields) in definitions "
         "with interior gaps, trailing gaps and none: a covering table (6 layouts x every field / all fields so named, struct, array element, message, "
         "auto_pad on/off), drawn layout closures with such names, and one layout of the configuration matrix. "
@@ -57,7 +64,11 @@ RULE = ("Hypothesis draws definition closures for the layout profile: 1-2 files,
         "order, everything else in the emitted list is a char padding field (padding is what is NOT the user's, by position - not by name), no two "
         "emitted fields of a definition bear the same name, every field starts at a multiple of its alignment, the size is the sum of the emitted fields, a "
         "multiple of the strictest alignment and equal to the natural sizeof, and ctypes / gcc place every emitted field exactly at the "
-        "running sum. Non-trivial = a definition that needs >= 1 padding byte or nests a struct of alignment < 8; distinct = (auto_pad, "
+        "running sum; in the generated C header gcc's sizeof of every member equals the emitted field's size, the member sizes add up to sizeof(struct) and no "
+        "array member is declared with length 0 (a member gcc gives no size is padding the compiler inserts itself). The gcc sample of the quick tier: every 12th drawn "
+        "closure, the first batch of the enumerated sub-domain in every shard (16 x 120 structs + their wrappers) and a fixed table of 16 definitions ending 1..7 "
+        "bytes short of their alignment (9 of them exactly one byte: {int32; char[3]}, {int16; uint8}, nested, as array elements, behind aliases) as struct and as "
+        "message, with automatic padding, with user fields named like padding fields, and padded by hand with auto_pad off. Non-trivial = a definition that needs >= 1 padding byte or nests a struct of alignment < 8; distinct = (auto_pad, "
         "outcome, per field (alignment, scalar/array, native/nested), gap positions); for histories (auto_pad, per parse fault?/outcome, clear() "
         "pattern, kinds of redefinition), non-trivial when a later closure redefines a name.")
 ASSUME = [
@@ -68,6 +79,8 @@ ASSUME = [
     "histories: Parser.clear() is public and is what parse() itself calls on rejection; a cleared Parser is expected to behave like a new one. Nothing is claimed about a second parse() WITHOUT clear() after an accepted one (tests/test_parser.py relies on accumulation), so clear() is always called there",
     "a history step with a deliberate late fault has no layout expectation; only equality with a fresh Parser (same exception class) is asserted for it",
     "equality of the padded size with the natural sizeof (minimal padding) is asserted because 'accepted exactly when it needs none' defines what is needed; it has its own finding key (padding-not-minimal)",
+    "'Definitions larger than 65535 bytes are rejected' is read literally: 65535 is part of the statement, not the value of whatever constant is called MAX_MESSAGE_SIZE in the files being compiled (core_defs.yaml publishes 65535 under that name; with the core imported a user constant of that name is a DuplicateNameError, so the question only arises without it). Definitions of at most 65535 bytes that need no padding were already expected to be accepted (key rejected-although-size-le-65535); that holds with such constants too",
+    "a trailing padding field of one byte may be declared in C as a scalar or as an array of length 1 (both are one declared byte); an array of length 0 declares nothing and is reported",
     "arrays declared with length 0 are not layouts (rejected as a syntax error since the fix of F21) and are not generated",
     "a gcc failure or timeout on a generated header is counted as inconclusive, never as a violation (loading in C is property C15)",
     "a parse that does not return within 45 s (normal: milliseconds) is interrupted and counted as inconclusive; after three of them a shard stops feeding the compiler",
@@ -198,7 +211,11 @@ def _judge(p, out, exp, at, trace, res, gcc, only):
             raise Violation("rejected-although-no-padding-needed", f"auto_pad {ap}: every definition is naturally aligned by the user's own "
                             f"fields, yet the compiler raised AlignmentError: {str(out.exc)[:200]}", trace)
         if out.outcome == "InvalidMessageSize":
-            raise Violation("rejected-although-size-le-65535", f"auto_pad {ap}: no definition is larger than 65535 bytes, yet: {str(out.exc)[:200]}", trace)
+            lim = ""
+            if "limit-constants" in p.classes:
+                lim = (" (compiled without the core definitions; the files declare " + ", ".join(f"{d.name}: {d.text if d.text is not None else d.value}" for d in p.defs if "limit-constant" in d.flags)[:200]
+                       + " - the limit of the statement is 65535 whatever constants exist)")
+            raise Violation("rejected-although-size-le-65535", f"auto_pad {ap}: no definition is larger than 65535 bytes{lim}, yet: {str(out.exc)[:200]}", trace)
         from pyrtma.parser import ParserError
 
         if not isinstance(out.exc, ParserError):
@@ -212,13 +229,19 @@ def _judge(p, out, exp, at, trace, res, gcc, only):
             if exp == "AlignmentError":
                 raise Violation("accepted-although-padding-needed", f"auto_pad off: {_describe(p, at)} needs {lay.own_padding} padding byte(s) "
                                 f"(natural offsets {[lf.offset for lf in lay.fields]}, size {lay.size}) but was accepted", trace)
-            raise Violation("accepted-oversize", f"auto_pad {ap}: {_describe(p, at)} has natural size {lay.size} > 65535 but was accepted", trace)
+            lim = ""
+            if "limit-constants" in p.classes:
+                lim = ("; compiled without the core definitions, the files declare " + ", ".join(f"{d.name}: {d.text if d.text is not None else d.value}" for d in p.defs if "limit-constant" in d.flags)[:200]
+                       + " - the limit of the statement is 65535 whatever constants exist")
+            raise Violation("accepted-oversize", f"auto_pad {ap}: {_describe(p, at)} has natural size {lay.size} > 65535 but was accepted{lim}", trace)
         if out.outcome != exp:
             raise Violation(f"wrong-error/{exp}/{out.outcome}", f"auto_pad {ap}: {_describe(p, at)} (natural size {lay.size}, padding needed "
                             f"{lay.own_padding}) must fail with {exp}, got {out.outcome}: {str(out.exc)[:200]}", trace)
         if res is not None:
             res.count("programs")
             res.count(f"outcome/{exp}/auto_pad-{ap}")
+            if "limit-constants" in p.classes:
+                res.count(f"class/limit-constants/{exp}")
             if nontrivial(p, at):
                 res.shape(p.auto_pad, exp, *shape_of(p, at))
         return
@@ -309,8 +332,12 @@ def _judge(p, out, exp, at, trace, res, gcc, only):
         res.count(f"outcome/ok/auto_pad-{ap}")
         for c in ("boundary-size", "explicit-padding", "struct-array", "alias-field", "alias-of-imported-struct", "alias-of-imported-struct-field", "struct-contains-message", "nested-align-1", "nested-align-2", "nested-align-4",
                   "nested-align-8", "cross-file-struct-field", "expr-length", "message-in-message", "padding-name", "padding-name/interior-gap",
-                  "padding-name/trailing-gap", "padding-name/no-gap"):
+                  "padding-name/trailing-gap", "padding-name/no-gap", "limit-constants", "limit-constants/in-root-file", "limit-constants/in-imported-file",
+                  "boundary-table/core-imported", "one-short-table"):
             if c in p.classes:
+                res.count("class/" + c)
+        for c in p.classes:
+            if c.startswith("limit-constants/") and not c.startswith("limit-constants/in-"):
                 res.count("class/" + c)
         if len(res.samples) < 3 and padded_any and len(sizes) <= 4:
             res.sample({"auto_pad": p.auto_pad, "files": p.files, "emitted": {n: v[3] for n, v in sizes.items()}})
@@ -338,7 +365,7 @@ def gcc_probe(p, ps, root, sizes, trace, res):
         cn = ("MDF_" if p.by_name(name).kind == "message" else "") + name
         lines.append(f'printf("S {name} %zu %zu\\n", sizeof({cn}), (size_t)_Alignof({cn}));')
         for (fn, tn, ln) in em:
-            lines.append(f'printf("F {name} {fn} %zu\\n", offsetof({cn}, {fn}));')
+            lines.append(f'printf("F {name} {fn} %zu %zu\\n", offsetof({cn}, {fn}), sizeof((({cn}*)0)->{fn}));')
     lines += ["return 0;}"]
     with open(os.path.join(d, "probe.c"), "w") as f:
         f.write("\n".join(lines) + "\n")
@@ -355,20 +382,46 @@ def gcc_probe(p, ps, root, sizes, trace, res):
         if res is not None:
             res.inconclusive += 1
         return
-    got_s, got_f = {}, {}
+    got_s, got_f, got_m = {}, {}, {}
     for ln in r.stdout.splitlines():
         parts = ln.split()
         if parts[0] == "S":
             got_s[parts[1]] = (int(parts[2]), int(parts[3]))
         else:
             got_f.setdefault(parts[1], []).append(int(parts[3]))
+            got_m.setdefault(parts[1], []).append(int(parts[4]))
+    with open(hdr) as f:
+        declared = header_fields(f.read())
+    ap = "on" if p.auto_pad else "off"
     for name, (size, al, offs, em) in sizes.items():
+        what = f"auto_pad {ap}: {_describe(p, name)} emitted as {em}"
         if got_s.get(name) != (size, al) or got_f.get(name, []) != offs:
-            raise Violation("hidden-padding/gcc", f"auto_pad {'on' if p.auto_pad else 'off'}: {_describe(p, name)} emitted as {em}: gcc says sizeof/alignof "
+            raise Violation("hidden-padding/gcc", f"{what}: gcc says sizeof/alignof "
                             f"{got_s.get(name)}, offsets {got_f.get(name)}; the declared fields add up to size {size}, alignment {al}, offsets {offs}", trace)
+        # the C declaration itself: no member of no size, and the members - as gcc sizes them - fill the struct completely
+        cn = ("MDF_" if p.by_name(name).kind == "message" else "") + name
+        zero = [(n, ln) for n, ln in declared.get(cn, []) if ln == 0]
+        msizes = got_m.get(name, [])
+        model = [G.type_size_align(p, tn)[0] * (ln or 1) for (_fn, tn, ln) in em]
+        if zero or sum(msizes) != got_s[name][0] or msizes != model:
+            short = got_s[name][0] - sum(msizes)
+            raise Violation("hidden-padding/gcc/member-sizes", f"{what}: in the generated C header the members of {cn} have sizeof {msizes} "
+                            f"(sum {sum(msizes)}) while sizeof({cn}) is {got_s[name][0]}"
+                            + (f": gcc itself inserts {short} byte(s) of padding that the header does not declare" if short else "")
+                            + (f"; array member(s) declared with length 0: {[n for n, _ in zero]}" if zero else "")
+                            + f"; the emitted fields have sizes {model}", trace)
     if res is not None:
         res.count("gcc/programs-probed")
         res.count("gcc/definitions-probed", len(sizes))
+        one = sum(1 for name in sizes if _trailing_gap(p, name) == 1)
+        if one:
+            res.count("gcc/definitions-probed/one-trailing-padding-byte", one)
+
+
+def _trailing_gap(p: G.Program, name: str) -> int:
+    lay = G.natural_layout(p, name)
+    end = max((lf.offset + lf.size for lf in lay.fields), default=0)
+    return lay.size - end
 
 
 # ----------------------------------------------------------------------------------------------
@@ -382,16 +435,25 @@ CFG_LAYOUTS = {
     "array-interior": [("a", "char", 3), ("b", "uint64", 2)],
     "padding-names": [("padding_0_", "uint8", None), ("b", "int32", None), ("padding_1_", "int16", None)],
 }
+# layouts with cases of their own in the matrix (not multiplied with every way)
+CFG_EXTRA_LAYOUTS = {
+    "trailing-one": [("a", "int32", None), ("b", "char", 3)],
+    "trailing-one-scalar": [("a", "int16", None), ("b", "uint8", None)],
+    "oversize": [("t0", "double", None), ("data", "char", 70000)],
+    "oversize-by-one": [("data", "char", 65536)],
+    "max-size": [("data", "char", 65535)],
+}
 STRUCT_RE = re.compile(r"typedef struct \{(.*?)\}\s*(\w+);", re.S)
 CFIELD_RE = re.compile(r"^\s*(.+?)\s+(\w+)(?:\[(\d+)\])?;\s*$", re.M)
 
 
 def config_program(layout: str, auto_pad: bool, way: str, core: bool = False, explicit_validate: bool = False, yaml_core: bool = False,
-                   file_opts: dict = None, validate: bool = True) -> G.Program:
+                   file_opts: dict = None, validate: bool = True, limits: str = None) -> G.Program:
     """``auto_pad`` / ``validate`` / ``core`` are the configuration the CALLER chooses (keyword arguments of compile(), command line
     switches, or - way yaml-options - the compiler_options section); ``file_opts`` are entries written into the root file's
-    compiler_options section IN ADDITION, possibly saying the opposite of an explicit keyword argument / switch."""
-    fields = [G.FieldSpec(n, t if ln is None else f"{t}[{ln}]", t, ln, None if ln is None else str(ln)) for n, t, ln in CFG_LAYOUTS[layout]]
+    compiler_options section IN ADDITION, possibly saying the opposite of an explicit keyword argument / switch.  ``limits``: a key
+    of vlib.defgen_layout.LIMIT_VARIANTS - the root file also declares constants named like the core's limit constants (core False)."""
+    fields = [G.FieldSpec(n, t if ln is None else f"{t}[{ln}]", t, ln, None if ln is None else str(ln)) for n, t, ln in {**CFG_LAYOUTS, **CFG_EXTRA_LAYOUTS}[layout]]
     defs = [G.Def("struct", "CFG_REC", "root.yaml", fields=[G.FieldSpec(f.name, f.type_text, f.base, f.length, f.length_text) for f in fields]),
             G.Def("message", "CFG_MSG", "root.yaml", id=1234, fields=fields)]
     spec = G.FileSpec(path="root.yaml", defs=defs)
@@ -408,6 +470,10 @@ def config_program(layout: str, auto_pad: bool, way: str, core: bool = False, ex
         spec.compiler_options.update(file_opts)
         classes.add("config-conflict")
     p = G.Program([spec], "root.yaml", {"auto_pad": auto_pad, "validate_alignment": validate, "import_coredefs": core}, "single", classes)
+    if limits:
+        p = L.add_limit_constants(p, L.LIMIT_VARIANTS[limits](), "root", limits)
+        if p is None:
+            raise HarnessError("limit constants need a configuration without the core definitions")
     return p
 
 
@@ -475,9 +541,11 @@ def config_case(p: G.Program, way: str, res: Result = None):
             if exp == "ok":
                 raise Violation(f"{fam}/rejected-although-acceptable", f"{what}: expected acceptance, got {got} {detail!r}", trace)
             if got == "ok":
+                lim = " (the files declare " + ", ".join(f"{d.name}: {d.text if d.text is not None else d.value}" for d in p.defs if "limit-constant" in d.flags)[:200] + ")" if "limit-constants" in p.classes else ""
                 raise Violation(f"{fam}/accepted-although-{'padding-needed' if exp == 'AlignmentError' else 'oversize'}",
-                                f"{what}: {_describe(p, at)} needs {G.natural_layout(p, at).own_padding} padding byte(s) with auto_pad off "
-                                f"(size {G.natural_layout(p, at).size}); expected {exp}, but the compilation succeeded", trace)
+                                f"{what}: {_describe(p, at)} " + (f"needs {G.natural_layout(p, at).own_padding} padding byte(s) with auto_pad off" if exp == "AlignmentError" else
+                                                                  f"is larger than 65535 bytes{lim}")
+                                + f" (size {G.natural_layout(p, at).size}); expected {exp}, but the compilation succeeded", trace)
             raise Violation(f"{fam}/wrong-error/{exp}/{got}", f"{what}: expected {exp}, got {got} {detail!r}", trace)
         if exp != "ok":
             if os.path.exists(hdr):
@@ -505,7 +573,10 @@ def config_case(p: G.Program, way: str, res: Result = None):
             res.count(f"config/{way}/{exp}")
             if conflict:
                 res.count(f"config-conflict/{way}/{'+'.join(f'{k}={v}' for k, v in sorted(opts.items()))}-in-file")
-            res.shape("config", way, p.auto_pad, validating, exp, tuple(sorted(opts.items())), p.import_coredefs, tuple(sorted(c for c in p.classes if c.startswith("layout/"))))
+            if "limit-constants" in p.classes:
+                res.count(f"config-limit-constants/{way}/{exp}")
+            res.shape("config", way, p.auto_pad, validating, exp, tuple(sorted(opts.items())), p.import_coredefs,
+                      tuple(sorted(c for c in p.classes if c.startswith(("layout/", "limit-constants/")))))
     finally:
         shutil.rmtree(d, ignore_errors=True)
 
@@ -538,6 +609,22 @@ def config_matrix():
     cases.append(("array-interior", False, "cli-flags", {"file_opts": {"AUTO_PAD": True}, "core": True}))
     for layout in ("interior", "trailing"):
         cases.append((layout, True, "cli-flags", {"file_opts": {"VALIDATE_ALIGNMENT": True}, "validate": False}))
+    # one trailing padding byte (declared as a scalar or as [1], never as [0])
+    for layout in ("trailing-one", "trailing-one-scalar"):
+        cases.append((layout, True, "compile-kwargs", {}))
+        cases.append((layout, False, "compile-kwargs", {}))
+        cases.append((layout, True, "compile-kwargs", {"core": True}))
+    cases.append(("trailing-one", True, "cli-flags", {}))
+    cases.append(("trailing-one-scalar", True, "yaml-options", {}))
+    # the size limit in every way of compiling WITHOUT the core definitions, with user constants named like the core's limit constants
+    for layout, ok_side in (("oversize", False), ("oversize-by-one", False), ("max-size", True)):
+        for limits in ((None, "size-limit-smaller", "all-core-limits-smaller") if ok_side else (None, "size-limit-larger", "all-core-limits-larger", "size-limit-plus-one")):
+            cases.append((layout, layout != "oversize-by-one", "compile-kwargs", {"limits": limits}))
+        cases.append((layout, True, "compile-kwargs", {"core": True}))
+    cases.append(("oversize", True, "cli-flags", {"limits": "size-limit-larger"}))
+    cases.append(("oversize-by-one", False, "yaml-options", {"limits": "size-limit-larger"}))
+    cases.append(("max-size", True, "cli-flags", {"limits": "size-limit-smaller"}))
+    cases.append(("max-size", False, "yaml-options", {"limits": "all-core-limits-smaller"}))
     return cases
 
 
@@ -680,9 +767,9 @@ def _mk(defs, auto_pad):
                      {"exhaustive"})
 
 
-def _run_collect(p, res, only=None):
+def _run_collect(p, res, only=None, gcc=False):
     try:
-        check_program(p, res, only=only)
+        check_program(p, res, gcc=gcc, only=only)
         return True
     except Violation as v:
         res.add_finding(v.key, v.what, v.trace)
@@ -701,7 +788,7 @@ def exhaustive(idx: int, nshards: int, res: Result):
         defs.sort(key=lambda d: d.kind != "struct")
         p = _mk(defs, True)
         res.evaluations += len(batch)
-        if not _run_collect(p, res):
+        if not _run_collect(p, res, gcc=(k == 0)):  # the first batch of every shard (16 x 240 definitions) also through gcc
             for i, s in batch:  # isolate a small failing case
                 _run_collect(_mk(_seq_defs(i, s), True), res)
     # auto_pad off
@@ -754,7 +841,12 @@ def native_name_table(idx: int, nshards: int, res: Result):
 
 def boundary_table(idx: int, nshards: int, res: Result):
     """Definitions whose declared bytes add up to every total in 65520..65551, for strictest alignment 1/2/4/8, as struct and
-    as message, auto_pad on and off: the exact position of the 65535 limit (natural size = total rounded up to the alignment)."""
+    as message, auto_pad on and off: the exact position of the 65535 limit (natural size = total rounded up to the alignment).
+    Every case is compiled without the core definitions - as it is, and with each declaration of vlib.defgen_layout.LIMIT_VARIANTS
+    (user constants named like the core's limit constants MAX_MESSAGE_SIZE, MAX_CONTIGUOUS_MESSAGE_DATA, ... holding larger, smaller,
+    neighbouring and the same values, as int, float, expression and string constant; in the root file or in a file imported first) -
+    and every fourth case also WITH the core definitions imported: the limit is 65535 whatever constants exist."""
+    variants = sorted(L.LIMIT_VARIANTS)
     k = 0
     for a in (1, 2, 4, 8):
         for total in range(65520, 65552):
@@ -775,16 +867,40 @@ def boundary_table(idx: int, nshards: int, res: Result):
                     res.evaluations += 1
                     res.count("boundary-table-cases")
                     _run_collect(p, res)
+                    for vi, tag in enumerate(variants):
+                        q = L.add_limit_constants(p, L.LIMIT_VARIANTS[tag](), L.LIMIT_PLACES[(k // nshards + vi) % 2], tag)
+                        if q is None:
+                            raise HarnessError("boundary table: limit constants could not be added")
+                        res.evaluations += 1
+                        res.count("boundary-table-cases/with-limit-constants")
+                        _run_collect(q, res)
+                    if (k // nshards) % 4 == 0:
+                        q = p.clone()
+                        q.options["import_coredefs"] = True
+                        q.classes.add("boundary-table/core-imported")
+                        res.evaluations += 1
+                        res.count("boundary-table-cases/core-imported")
+                        _run_collect(q.rerender(), res)
+
+
+def one_short_table(idx: int, nshards: int, res: Result):
+    """gcc sample that does not depend on the draw: definitions that end exactly one byte (and 2..7 bytes) short of their alignment."""
+    for i, p in enumerate(L.one_short_programs()):
+        if i % nshards == idx:
+            res.evaluations += 1
+            res.count("one-short-table-programs")
+            _run_collect(p, res, gcc=True)
 
 
 # ----------------------------------------------------------------------------------------------
 
 
-def shard(idx: int, nshards: int, seed: int, n_layout: int, n_general: int, gcc_every: int, n_cfg: int = 0, n_padname: int = 40, n_hist: int = 60):
+def shard(idx: int, nshards: int, seed: int, n_layout: int, n_general: int, gcc_every: int, n_cfg: int = 0, n_padname: int = 40, n_hist: int = 60, n_limit: int = 40):
     G.quiet()
     res = Result()
     exhaustive(idx, nshards, res)
     boundary_table(idx, nshards, res)
+    one_short_table(idx, nshards, res)
     native_name_table(idx, nshards, res)
     run_config_matrix(idx, nshards, res)
     padname_table(idx, nshards, res)
@@ -817,6 +933,8 @@ def shard(idx: int, nshards: int, seed: int, n_layout: int, n_general: int, gcc_
     hyp_run(sb.body(body), sb.wrap(L.padname_programs()), seed + 2, n_padname, res)
     sb = G.ShrinkBudget(15)
     hyp_run(sb.body(lambda h: check_history(h, res)), sb.wrap(L.layout_histories()), seed + 3, n_hist, res)
+    sb = G.ShrinkBudget(15)
+    hyp_run(sb.body(body), sb.wrap(L.limit_const_programs()), seed + 4, n_limit, res)
     return res
 
 
@@ -828,7 +946,7 @@ def run(ctx: RunContext) -> int:
     n_general = ctx.scale(150, 1500)
     gcc_every = 12 if ctx.quick else 1
     res = run_shards(shard, [(i, 16, derive_seed(ctx.seed, i), n_layout, n_general, gcc_every, 0 if ctx.quick else 12, ctx.scale(40, 800),
-                              ctx.scale(60, 2500)) for i in range(16)])
+                              ctx.scale(60, 2500), ctx.scale(40, 1500)) for i in range(16)])
     res.notes.append(f"exhaustive sub-domain complete: all {sum(1 for _ in all_sequences())} sequences of <= 4 fields over "
                      "{1,2,4,8}-byte scalars and arrays of length 1 and 3, as struct and as array element of a wrapper message, auto_pad on and off")
     return conclude(ctx, res, RULE, ASSUME, t0)
